@@ -20,10 +20,11 @@ EXPLANATION = ('Structural clauses, fully symbolic geometry: RadialNumericalBH._
                'asserted: energy stored = heat injected minus the flux through the last interface (1e-6 relative), T >= T_init is '
                'preserved, the step is monotone (Ta <= Tb => step(Ta) <= step(Tb)), and g = 2 pi k ((T_fluid - T_init)/q - R_b*). '
                'Induction over steps gives a non-decreasing g, g_bhw >= 0 and g >= -2 pi k R_b*.')
-OUTSIDE = ('the 0.5 % agreement with an independent fine-mesh solution, finiteness under float rounding and the 30-point resampling '
-           'accuracy: numerical facts about a 535-cell, >= 1470-step simulation, not encodable. The dynamic clauses are proved on reduced '
-           'meshes (17 cells quick, 17 and 24 thorough; the coefficient code is the same for any cell count) of 12 concrete boreholes; '
-           'the production 535-cell mesh is outside the bound (z3 returns unknown at 34 cells, probed).')
+OUTSIDE = ('the 0.5 % agreement with an independent fine-mesh solution, finiteness under float rounding and the accuracy of the 30-point '
+           'resampling between samples: numerical facts about a 535-cell, >= 1470-step simulation, not encodable (that the resampled points '
+           'are non-decreasing and inside the computed range is claimed: published_points units, interp1d by contract). The dynamic clauses '
+           'are proved on reduced meshes (17 cells quick, 17 and 24 thorough; the coefficient code is the same for any cell count) of 12 '
+           'concrete boreholes; the production 535-cell mesh is outside the bound (z3 returns unknown at 34 cells, probed).')
 
 
 class NPF:
